@@ -3,7 +3,7 @@
    Models: Dec/StdBind.v (encoding/json), Dec/SonicBind.v (sonic), Dec/FieldMap.v, Dec/Range.v, Dec/Trailing.v. *)
 From Coq Require Import NArith ZArith List Bool String.
 From SV.Dec Require Import Ty Val Parse Text Num Common FieldMap FieldMapProofs FieldLookup Range Trailing StdBind SonicBind
-  DecProofs OptProofs DecProofs2 Witness Witness2 Compile Exec ExecProofs ExecWitness Code Sim SimTop.
+  DecProofs OptProofs DecProofs2 Witness Witness2 Compile Exec ExecProofs ExecWitness Code Sim SimTop CodeStruct SimStruct.
 Import ListNotations.
 Open Scope string_scope.
 
@@ -274,6 +274,39 @@ Proof.
   repeat split; vm_compute; reflexivity.
 Qed.
 Print Assumptions C01_il_sim_arrays_nonvacuous.
+
+(* structs (top inline level): header with the two copies of the key loop, the switch tables filled with the addresses of
+   the field blocks, one block per field, the final drop - for structs with at least one field, every field unquoted and of a
+   type of `ilf` *)
+Theorem C01_compile_struct : forall nm q t r, sfields (FCons nm q t r) = true -> forall p,
+  compileOps 0 (TStruct (FCons nm q t r)) p = (p ++ scode (FCons nm q t r) (List.length p))%list.
+Proof. exact compile_struct. Qed.
+Print Assumptions C01_compile_struct.
+
+(* simulation for structs: fields unquoted, of types of `simf` without fixed arrays (`sfields2`); destination a struct value
+   with one value per field. Hypothesis on the field table: the lookup returns field numbers only (the FieldMap model stores
+   the ids 0..n-1: C01_fieldmap_get_spec for the exact probe; not yet proved for the case-insensitive side map). Member loop:
+   key through parse_string + unquote, exact-then-lower-case lookup, switch to the field's block, unknown keys skipped
+   (DisallowUnknownFields: error), duplicate keys decode over the previous value, `{}`, every malformed shape. *)
+Theorem C01_il_sim_struct : forall (h : bytes -> N) (o : opts) fs s vs, is_fnil fs = false -> sfields2 fs = true ->
+  (forall k i, sonic_lookup h (fnames fs) k = Some i -> (i < flen fs)%nat) ->
+  List.length vs = flen fs ->
+  compat (il_unmarshal h o (TStruct fs) s (VList vs [])) (sonic_unmarshal h Jit o (TStruct fs) s (VList vs [])).
+Proof. exact il_sim_struct. Qed.
+Print Assumptions C01_il_sim_struct.
+
+Theorem C01_il_sim_struct_nonvacuous :
+  let fs := FCons (b "name") false TStr (FCons (b "ids") false (TSlice (TInt I64)) (FCons (b "P") false (TPtr TBool) FNil)) in
+  let v0 := VList [VStr (b "old"); VList [VInt 9] [VInt 8]; VNil] [] in
+  is_fnil fs = false /\ sfields2 fs = true /\
+  il_unmarshal h1 opts_std (TStruct fs) (b "{""NAME"":""x"", ""ids"":[1,2], ""zz"":{""a"":[1]}, ""p"":true, ""ids"":[3]}") v0 =
+    Ok (VList [VStr (b "x"); VList [VInt 3] [VInt 2]; VPtr (VBool true)] []) /\
+  sonic_unmarshal h1 Jit opts_std (TStruct fs) (b "{""NAME"":""x"", ""ids"":[1,2], ""zz"":{""a"":[1]}, ""p"":true, ""ids"":[3]}") v0 =
+    Ok (VList [VStr (b "x"); VList [VInt 3] [VInt 2]; VPtr (VBool true)] []) /\
+  il_unmarshal h1 opts_default (TStruct fs) (b "{""name"":""x"",}") v0 = Err /\
+  sonic_unmarshal h1 Jit opts_default (TStruct fs) (b "{""name"":""x"",}") v0 = Err.
+Proof. repeat split; vm_compute; reflexivity. Qed.
+Print Assumptions C01_il_sim_struct_nonvacuous.
 
 (* ------------------------------------------------------------------ clauses the faithful model violates
    (each witness is replayed on the real code from corpus/C01 and listed in known_findings.d/C01.json) *)
